@@ -281,7 +281,7 @@ func runC18(c *Ctx) {
 
 	// ---------------------------------------------------------------- D6
 	c.Rule("C18-D7", "a compacted slice is stored back: slices.DeleteFunc / Delete / Compact return a SHORTER slice and zero the tail of the old one; in the handler stores every such result is stored back into the field or map entry "+
-		"the operand was read from (or that entry is deleted) on every path — otherwise the registry keeps the old length with nil handlers at the end, which the next dispatch calls", 4)
+		"the operand was read from (or that entry is deleted) on every path — otherwise the registry keeps the old length with nil handlers at the end, which the next dispatch calls", 2)
 	{
 		n := 0
 		for _, fn := range p.SrcFuncs() {
@@ -336,8 +336,8 @@ func runC18(c *Ctx) {
 				c.Ob("C18-D7", name, call.Pos(), !skip, "the result of "+cs.Name+" is not stored back into "+Term(opnd)+" on every path: the registry keeps its old length, with nil entries where the removed handlers' successors were: "+trailString(p, trail))
 			}
 		}
-		if n < 4 {
-			anchorFail("C18-D7: found %d slices.DeleteFunc-like calls in the handler stores, expected at least 4", n)
+		if n < 2 {
+			c.Undecided("C18-D7: found %d slices.DeleteFunc-like calls in the handler stores, expected at least 2", n)
 		}
 	}
 
